@@ -493,6 +493,23 @@ def check_transform(centers_1d, k_ulp, viol, stats):
                                 dict(center=float(c), inverse=inverse, periodic=list(periodic),
                                      d=d, x=float(pts[i, j]))))
                         nonp = [j for j in range(d) if j not in periodic]
+                        if nonp:
+                            # non-periodic coordinates are untouched whatever their value (also
+                            # values on or outside the faces of the cube)
+                            ext = np.array(pts[:8], copy=True)
+                            vals = [1.0, float(np.nextafter(1.0, 2.0)), 1.5, -0.25, 0.0,
+                                    float(np.nextafter(1.0, 0.0)), 2.0, -1e-300]
+                            for j in nonp:
+                                ext[:, j] = vals
+                            oext = sh.transform(ext, inverse=inverse)
+                            stats['evaluations'] += len(ext)
+                            if not np.array_equal(oext[:, nonp], ext[:, nonp]):
+                                viol.setdefault('nonperiodic-coordinate-changed', (
+                                    'centre {!r} periodic={} inverse={}: non-periodic coordinates {} '
+                                    'come back as {}'.format(float(c), list(periodic), inverse,
+                                                             ext[:, nonp[0]].tolist(),
+                                                             oext[:, nonp[0]].tolist()),
+                                    dict(center=float(c), periodic=list(periodic), d=d)))
                         if nonp and not np.array_equal(out[:, nonp], pts[:, nonp]):
                             viol.setdefault('nonperiodic-coordinate-changed', (
                                 'centre {!r} periodic={}'.format(float(c), list(periodic)),
